@@ -149,4 +149,47 @@ theorem inconsistentEdges_eq_nil_iff (ts : List Tri) :
   · intro h e he; have := h e he; omega
   · intro h e he; have := h e he; omega
 
+/-! ## 2-D: `Manifold`, `InconsistentVertices` -/
+
+theorem numFirst_eq (v : Nat) (ss : List Seg) :
+    (segsAt v ss).countP (fun s => s.1 == v) = (starts ss).count v := by
+  induction ss with
+  | nil => rfl
+  | cons s ss ih =>
+    simp only [segsAt, starts, List.filter_cons, List.map_cons, List.count_cons] at ih ⊢
+    by_cases h1 : s.1 = v
+    · simp [segHas, h1, ih]
+    · have h1' : (s.1 == v) = false := by simpa using h1
+      by_cases h2 : s.2 = v
+      · simp [segHas, h1', h2, ih]
+      · have h2' : (s.2 == v) = false := by simpa using h2
+        simp [segHas, h1', h2', ih]
+
+theorem numSecond_eq (v : Nat) (ss : List Seg) (hl : NoLoopSeg ss) :
+    (segsAt v ss).countP (fun s => !(s.1 == v)) = (ends ss).count v := by
+  induction ss with
+  | nil => rfl
+  | cons s ss ih =>
+    have ih' := ih (fun t ht => hl t (List.mem_cons_of_mem _ ht))
+    have hs : s.1 ≠ s.2 := hl s List.mem_cons_self
+    simp only [segsAt, ends, List.filter_cons, List.map_cons, List.count_cons] at ih' ⊢
+    by_cases h1 : s.1 = v
+    · have h2 : (s.2 == v) = false := by simpa using fun h => hs (h1.trans h.symm)
+      simp [segHas, h1, h2, ih']
+    · have h1' : (s.1 == v) = false := by simpa using h1
+      by_cases h2 : s.2 = v
+      · simp [segHas, h1', h2, ih']
+      · have h2' : (s.2 == v) = false := by simpa using h2
+        simp [segHas, h1', h2', ih']
+
+theorem segsAt_length (v : Nat) (ss : List Seg) :
+    (segsAt v ss).length = (segsAt v ss).countP (fun s => s.1 == v) +
+      (segsAt v ss).countP (fun s => !(s.1 == v)) := by
+  generalize segsAt v ss = l
+  induction l with
+  | nil => rfl
+  | cons s l ih =>
+    simp only [List.length_cons, List.countP_cons, ih]
+    cases s.1 == v <;> simp <;> omega
+
 end M3d.MeshDiag
